@@ -1,6 +1,6 @@
 """C47 — the WSGI container presents requests and responses faithfully.
 
-A real HTTPServer(WSGIContainer(app)) is driven over a FakeIOStream with one request; the
+One WSGIContainer, mounted on an http and an https HTTPServer, serves the requests of a case one after the other, each over its own FakeIOStream; the
 capturing WSGI app records the environ it was handed and answers as the case prescribes; the
 bytes the server wrote are split into status line / header lines / body.  Both observables are
 compared with the Gallina model (C47.Run.run_case) and checked by C47.Run.check_case."""
@@ -12,7 +12,7 @@ import types
 from harness import gallina as G
 
 ID = "C47"
-COQ_DIRS = ["C47"]
+COQ_DIRS = ["C47", "Gen"]
 PROPERTY_FILE = "C47/Property.v"
 RUN_IMPORTS = "From TV Require Import C47.Model C47.Run."
 RUN_FN = "run_case"
@@ -20,6 +20,17 @@ CHECK_FN = "check_case"
 INPUT_TYPE = "input"
 
 CRLF = b"\r\n"
+
+
+def pre_build():
+    """Regenerate coq/Gen/C47_src.v from tornado/wsgi.py of the checkout under test (fail-closed)."""
+    import importlib
+    import os
+    from harness.framework import REPO, COQ
+    sys.path.insert(0, os.path.join(os.path.dirname(COQ), "translators"))
+    import c47_src
+    importlib.reload(c47_src)
+    c47_src.emit(REPO, os.path.join(COQ, "Gen", "C47_src.v"))
 
 _quiet = [False]
 
@@ -80,25 +91,41 @@ def canon_environ(environ):
     return out
 
 
+def split_wire(sent):
+    if sent == b"":
+        return G.Tag("Raised")
+    head, sep, body = sent.partition(CRLF + CRLF)
+    if not sep:
+        return [G.Tag("NoHeadEnd"), sent]
+    lines = head.split(CRLF)
+    hs = []
+    for ln in lines[1:]:
+        n, s2, v = ln.partition(b": ")
+        hs.append([n, v] if s2 else [G.Tag("NoColon"), ln])
+    return [lines[0], hs, body]
+
+
 def run_impl(case):
+    """All steps of the case are served, one after the other (each on its own connection), by ONE
+    WSGIContainer mounted on four HTTPServers (http / https x xheaders off / on)."""
     from harness.fake_iostream import FakeIOStream, EOF
     from harness.vclock import run_virtual, settle
     from tornado.httpserver import HTTPServer
     from tornado.wsgi import WSGIContainer
 
     _silence()
-    cap = {}
+    cur = {}
 
     def app(environ, start_response):
-        cap["env"] = canon_environ(environ)
-        if case["start"] is not None:
-            status, hs = case["start"]
-            write = start_response(status, [(n, v) for n, v in hs])
-            for w in case["written"]:
+        step = cur["step"]
+        cur["env"] = canon_environ(environ)
+        if step["start"] is not None:
+            status, hs = step["start"]
+            write = start_response(status, [(n, v) for n, v in hs])      # a fresh list per response
+            for w in step["written"]:
                 write(w.encode("latin-1"))
-        return [c.encode("latin-1") for c in case["chunks"]]
+        return [c.encode("latin-1") for c in step["chunks"]]
 
-    raw = wire_request(case)
     done = []
 
     class Container(WSGIContainer):          # only signals completion to the harness
@@ -109,71 +136,84 @@ def run_impl(case):
                 done.append(1)
 
     async def scenario(loop):
-        srv = HTTPServer(Container(app), protocol="https" if case["https"] else None)
-        s = FakeIOStream()
-        s.socket = types.SimpleNamespace(family=socket.AF_INET)
-        srv.handle_stream(s, (case["ip"], 4711))
-        s.feed(raw)
-        for _ in range(100 + 8 * len(case["chunks"])):
-            await settle(1)
-            if done or s.sent:
-                break
-        await settle(6)
-        s.feed(EOF)
-        await settle(8)
-        return bytes(s.sent)
+        container = Container(app)
+        servers = {(tls, xh): HTTPServer(container, protocol="https" if tls else None, xheaders=xh)
+                   for tls in (False, True) for xh in (False, True)}
+        outs = []
+        for step in case["steps"]:
+            cur.clear()
+            cur["step"] = step
+            del done[:]
+            s = FakeIOStream()
+            s.socket = types.SimpleNamespace(family=socket.AF_INET)
+            servers[(bool(step["https"]), bool(step.get("xheaders")))].handle_stream(s, (step["ip"], 4711))
+            s.feed(wire_request(step))
+            for _ in range(100 + 8 * len(step["chunks"])):
+                await settle(1)
+                if done or s.sent:
+                    break
+            await settle(6)
+            s.feed(EOF)
+            await settle(8)
+            sent = bytes(s.sent)
+            if "env" not in cur:
+                if sent.startswith(b"HTTP/1.1 400 "):
+                    outs.append(G.Tag("Rejected"))
+                elif sent == b"":
+                    outs.append(G.Tag("EnvironRaised"))
+                else:
+                    outs.append([G.Tag("Unexpected"), sent])
+            else:
+                outs.append([G.Tag("Served"), cur["env"], split_wire(sent)])
+        return outs
 
-    sent = run_virtual(scenario)
-    if "env" not in cap:
-        if sent.startswith(b"HTTP/1.1 400 "):
-            return G.Tag("Rejected")
-        if sent == b"":
-            return G.Tag("EnvironRaised")
-        return [G.Tag("Unexpected"), sent]
-    if sent == b"":
-        w = G.Tag("Raised")
-    else:
-        head, sep, body = sent.partition(CRLF + CRLF)
-        if not sep:
-            w = [G.Tag("NoHeadEnd"), sent]
-        else:
-            lines = head.split(CRLF)
-            hs = []
-            for ln in lines[1:]:
-                n, s2, v = ln.partition(b": ")
-                hs.append([n, v] if s2 else [G.Tag("NoColon"), ln])
-            w = [lines[0], hs, body]
-    return [G.Tag("Served"), cap["env"], w]
+    return run_virtual(scenario)
 
 
 def _pairs(l):
     return G.glist(["(%s, %s)" % (G.gbytes(n), G.gbytes(v)) for n, v in l], "(list N * list N)")
 
 
-def coq_input(case):
-    import tornado
-    req = "(%s, %s, %s, %s, %s, %s, %s)" % (
-        G.gbool(case["https"]), G.gbytes(case["ip"]), G.gbool(case["v11"]), G.gbytes(case["method"]),
-        G.gbytes(case["uri"]), _pairs(case["headers"]), G.gbytes(case["body"]))
-    if case["start"] is None:
+STEP_TY = ("((bool * bool * list N * bool * list N * list N * list (list N * list N) * list N) * "
+           "(option (list N * list (list N * list N)) * list (list N) * list (list N)))")
+
+
+def coq_step(step):
+    req = "(%s, %s, %s, %s, %s, %s, %s, %s)" % (
+        G.gbool(step["https"]), G.gbool(bool(step.get("xheaders"))), G.gbytes(step["ip"]), G.gbool(step["v11"]), G.gbytes(step["method"]),
+        G.gbytes(step["uri"]), _pairs(step["headers"]), G.gbytes(step["body"]))
+    if step["start"] is None:
         st = "(@None (list N * list (list N * list N)))"
     else:
-        st = "(Some (%s, %s))" % (G.gbytes(case["start"][0]), _pairs(case["start"][1]))
-    app = "(%s, %s, %s)" % (st, G.glist([G.gbytes(w) for w in case["written"]], "(list N)"),
-                            G.glist([G.gbytes(c) for c in case["chunks"]], "(list N)"))
-    return "(%s, %s, %s)" % (G.gbytes(tornado.version), req, app)
+        st = "(Some (%s, %s))" % (G.gbytes(step["start"][0]), _pairs(step["start"][1]))
+    app = "(%s, %s, %s)" % (st, G.glist([G.gbytes(w) for w in step["written"]], "(list N)"),
+                            G.glist([G.gbytes(c) for c in step["chunks"]], "(list N)"))
+    return "(%s, %s)" % (req, app)
+
+
+def coq_input(case):
+    import tornado
+    return "(%s, %s)" % (G.gbytes(tornado.version), G.glist([coq_step(st) for st in case["steps"]], STEP_TY))
 
 
 # ----------------------------------------------------------------------------
 # generator
 # ----------------------------------------------------------------------------
-def mk(method="GET", uri="/", v11=True, headers=None, body="", https=False, ip="1.2.3.4",
+def step(method="GET", uri="/", v11=True, headers=None, body="", https=False, xheaders=False, ip="1.2.3.4",
        start=("200 OK", []), written=(), chunks=("hi",)):
-    return {"https": https, "ip": ip, "v11": v11, "method": method, "uri": uri,
+    return {"https": https, "xheaders": xheaders, "ip": ip, "v11": v11, "method": method, "uri": uri,
             "headers": [list(h) for h in (headers if headers is not None else [("Host", " example.com")])],
             "body": body,
             "start": None if start is None else [start[0], [list(h) for h in start[1]]],
             "written": list(written), "chunks": list(chunks)}
+
+
+def seq(*steps):
+    return {"steps": list(steps)}
+
+
+def mk(**kw):
+    return seq(step(**kw))
 
 
 NAMES = ["example.com", "a", "localhost", "1.2.3.4", "[::1]", "[2001:db8::1]", "", "A.b-c_d~e", "xn--bcher-kva.example",
@@ -193,6 +233,8 @@ HDR_VALUES = [" 1", " a b", "", " a ", " \xe9", " a,b", "\t", "x", " \t v\t ", "
 BAD_HDRS = [("X Foo", " 1"), ("X@", " 1"), ("\xe9", " 1"), ("", " 1"), ("X", " a\x00b"), ("X", " a\x7fb"), ("X", " \x01"),
             ("X(", " 1"), ("X", " a\x0bb"), ("X/Y", " 1"), ("X", " \x1f")]
 CTYPES = [" text/plain", " t/x; charset=utf-8", " application/json", ""]
+XPROTO = [" https", " http", " https, http", " http,https ", " HTTPS", " ftp", "", " https\xa0", " ,", " http,", " https,\thttp\t",
+          " \x85https", " wss, https", "https", " http://"]
 CONNS = [" close", " keep-alive", " Keep-Alive", " CLOSE", " upgrade", " close, x", ""]
 
 STATUSES = ["200 OK", "404 Not Found", "304 Not Modified", "204 No Content", "100 Continue", "500 ", "201 Created",
@@ -248,8 +290,13 @@ def rand_request(rng, good=True):
         hs.append(rng.choice(BAD_HDRS))
     if not good and rng.random() < 0.15:
         method = rng.choice(["G T", "", "GE(T", "G\xe9T", "GET,"])
+    xh = rng.random() < 0.3
+    if rng.random() < (0.6 if xh else 0.1):
+        hs.append((rng.choice(["X-Forwarded-Proto", "x-forwarded-proto", "X-Scheme", "x-scheme"]), rng.choice(XPROTO)))
+        if rng.random() < 0.3:
+            hs.append((rng.choice(["X-Forwarded-Proto", "X-Scheme"]), rng.choice(XPROTO)))
     rng.shuffle(hs)
-    return dict(method=method, uri=uri, v11=v11, headers=hs, body=body, https=rng.random() < 0.3,
+    return dict(xheaders=xh, method=method, uri=uri, v11=v11, headers=hs, body=body, https=rng.random() < 0.3,
                 ip=rng.choice(["1.2.3.4", "10.0.0.1", "255.255.255.255"]))
 
 
@@ -318,6 +365,10 @@ FIXED_WITNESSES = [
     mk(start=("200 \u20ac", [])),
     mk(start=("200 a\x00b", [])),
     mk(start=("200 caf\xe9\tx", [])),
+    # one container, same port-less Host, the other scheme second (seeded change C47_2)
+    seq(step(headers=[("Host", " app.example.com")], https=True), step(headers=[("Host", " app.example.com")], https=False),
+        step(headers=[("Host", " [2001:db8::1]")], https=False), step(headers=[("Host", " [2001:db8::1]")], https=True),
+        step(headers=[("Host", " other.example.com:")], https=False), step(headers=[("Host", " other.example.com:")], https=True)),
 ]
 
 
@@ -372,6 +423,61 @@ def gen_cases(rng, tier):
         c = rand_request(rng, good_r)
         c.update(rand_app(rng, good_a))
         out.append(mk(**c))
+    out += sequence_cases(rng, tier)
+    return out
+
+
+SEQ_HOSTS = ["app.example.com", "app.example.com:", "[2001:db8::1]", "[::1]:", "a", "h:8080", "[::1]:81", "", "h:443", "h:80"]
+
+
+def sequence_cases(rng, tier):
+    """Several requests served by ONE container: same Host (no port / empty port / IPv6 literal / explicit port)
+    under alternating schemes, in every order of length 2 and 3; then random mixtures."""
+    out = []
+    for h in SEQ_HOSTS:
+        hdr = [("Host", " " + h)]
+        for pattern in ([(a, b) for a in (False, True) for b in (False, True)]
+                        + [(a, b, c) for a in (False, True) for b in (False, True) for c in (False, True)]):
+            if tier == "quick" and len(pattern) == 3 and pattern in ((False, False, False), (True, True, True)):
+                continue
+            out.append(seq(*[step(headers=hdr, https=sch, chunks=[], v11=(i != 2)) for i, sch in enumerate(pattern)]))
+    # the same, behind a TLS-terminating proxy: one plain-http server with xheaders, scheme per request from the header
+    for h in SEQ_HOSTS[:6]:
+        for hdrname in ("X-Forwarded-Proto", "X-Scheme"):
+            for pattern in ((True, False), (False, True), (True, False, True)):
+                out.append(seq(*[step(headers=[("Host", " " + h)] + ([(hdrname, " https")] if sch else []),
+                                      xheaders=True, chunks=[]) for sch in pattern]))
+    for v in XPROTO:
+        out.append(seq(step(headers=[("Host", " h"), ("X-Forwarded-Proto", v)], xheaders=True, chunks=[]),
+                       step(headers=[("Host", " h"), ("X-Scheme", v), ("X-Forwarded-Proto", " https")], xheaders=True, https=True, chunks=[]),
+                       step(headers=[("Host", " h"), ("X-Scheme", v)], xheaders=False, chunks=[]),
+                       step(headers=[("Host", " h"), ("x-scheme", v), ("X-SCHEME", " http")], xheaders=True, https=True, chunks=[])))
+    # two hosts interleaved, the port-less one seen under both schemes around a request with an explicit port
+    for h1, h2 in [("a", "a:8080"), ("[::1]", "[::1]:"), ("x.y:", "x.y"), ("h", "H")]:
+        for first in (False, True):
+            out.append(seq(step(headers=[("Host", " " + h1)], https=first, chunks=[]),
+                           step(headers=[("Host", " " + h2)], https=not first, chunks=[]),
+                           step(headers=[("Host", " " + h1)], https=not first, chunks=[]),
+                           step(headers=[("Host", " " + h2)], https=first, chunks=[])))
+    # a rejected request and a failing application in the middle leave nothing behind
+    out.append(seq(step(https=True, chunks=[]), step(headers=[("Host", " a,b")]), step(chunks=[]),
+                   step(https=True, start=None), step(start=("200", [])), step(https=False, chunks=["x"])))
+    # more than 64 distinct hosts between two requests for the same one
+    if tier == "thorough":
+        out.append(seq(*([step(headers=[("Host", " first")], https=True, chunks=[])]
+                         + [step(headers=[("Host", " h%d" % i)], chunks=[]) for i in range(66)]
+                         + [step(headers=[("Host", " first")], chunks=[])])))
+    for _ in range(40 if tier == "quick" else 400):
+        hosts = [rng.choice(NAMES) + rng.choice(["", "", ":", ":8080"]) for _ in range(rng.choice([1, 1, 2]))]
+        steps = []
+        for _ in range(rng.choice([2, 3, 3, 4, 5])):
+            c = rand_request(rng, rng.random() < 0.9)
+            c.update(rand_app(rng, rng.random() < 0.8))
+            if rng.random() < 0.85:
+                c["headers"] = [h for h in c["headers"] if h[0].lower() != "host"] + [("Host", " " + rng.choice(hosts))]
+            c["https"] = rng.random() < 0.5
+            steps.append(step(**c))
+        out.append(seq(*steps))
     return out
 
 
@@ -379,43 +485,54 @@ def _accepted(o):
     return isinstance(o, list) and o and o[0] == "Served"
 
 
-def nontrivial(case, o):
-    if not _accepted(o):
+def _host_of(st):
+    hosts = [v.strip(" \t") for n, v in st["headers"] if n.lower() == "host"]
+    return hosts[0] if hosts else None
+
+
+def nontrivial(case, obs):
+    if not any(_accepted(o) for o in obs):
         return None
-    return (case["method"], case["uri"], case["v11"], case["https"], tuple(map(tuple, case["headers"])), case["body"],
-            repr(case["start"]), tuple(case["written"]), tuple(case["chunks"]))
+    return repr(case["steps"])
 
 
-def classify(case, o):
-    yield "outcome=" + (o[0] if _accepted(o) else str(o if isinstance(o, str) else o[0]))
-    if _accepted(o):
-        w = o[2]
-        yield "wire=" + (str(w) if isinstance(w, str) else "written")
-    hosts = [v.strip(" \t") for n, v in case["headers"] if n.lower() == "host"]
-    if not hosts:
-        yield "host=absent"
-    else:
-        h = hosts[0]
-        yield "host=" + ("bracketed" if h.startswith("[") else "plain") + ("+port" if h.rpartition(":")[2].isdigit() else
-                                                                         "+emptyport" if h.endswith(":") else "")
-    yield "method=" + ("HEAD" if case["method"] == "HEAD" else "other")
-    yield "path=" + ("raw-non-ascii" if any(ord(c) > 127 for c in case["uri"].partition("?")[0]) else
-                     "escapes" if "%" in case["uri"].partition("?")[0] else "plain")
-    if case["start"] is None:
-        yield "app=no-start"
-    else:
-        yield "status=" + case["start"][0][:3]
-        yield "app-headers=%d" % min(len(case["start"][1]), 4)
-    yield "req-headers=%d" % min(len(case["headers"]), 6)
+def classify(case, obs):
+    steps = case["steps"]
+    yield "steps=%d" % min(len(steps), 5)
+    if len(steps) > 1:
+        seen = {}
+        for st in steps:
+            seen.setdefault(_host_of(st), set()).add(st["https"])
+        yield "seq:same-host-both-schemes=" + str(any(len(v) == 2 for v in seen.values()))
+    for st, o in zip(steps, obs):
+        yield "outcome=" + (o[0] if _accepted(o) else str(o if isinstance(o, str) else o[0]))
+        if _accepted(o):
+            w = o[2]
+            yield "wire=" + (str(w) if isinstance(w, str) else "written")
+        h = _host_of(st)
+        if h is None:
+            yield "host=absent"
+        else:
+            yield "host=" + ("bracketed" if h.startswith("[") else "plain") + ("+port" if h.rpartition(":")[2].isdigit() else
+                                                                             "+emptyport" if h.endswith(":") else "")
+        yield "scheme=" + ("https" if st["https"] else "http") + ("+xheaders" if st.get("xheaders") else "")
+        yield "method=" + ("HEAD" if st["method"] == "HEAD" else "other")
+        yield "path=" + ("raw-non-ascii" if any(ord(c) > 127 for c in st["uri"].partition("?")[0]) else
+                         "escapes" if "%" in st["uri"].partition("?")[0] else "plain")
+        if st["start"] is None:
+            yield "app=no-start"
+        else:
+            yield "status=" + st["start"][0][:3]
+            yield "app-headers=%d" % min(len(st["start"][1]), 4)
+        yield "req-headers=%d" % min(len(st["headers"]), 6)
 
 
-def signature(case, o):
-    if _accepted(o):
-        return "served:" + ("HEAD" if case["method"] == "HEAD" else "other") + ":" + (o[2] if isinstance(o[2], str) else "written")
-    return "not-served:" + str(o if isinstance(o, str) else o[0])
+def signature(case, obs):
+    return "steps=%d:" % len(case["steps"]) + ",".join(
+        ("served" if _accepted(o) else str(o if isinstance(o, str) else o[0])) for o in obs)[:80]
 
 
-def shrink(case):
+def shrink_step(case):
     hs = case["headers"]
     for i in range(len(hs)):
         if hs[i][0].lower() not in ("host", "content-length"):
@@ -438,15 +555,26 @@ def shrink(case):
     if len(path) > 1:
         yield dict(case, uri=path[:len(path) // 2] + q + query)
         yield dict(case, uri=path[:-1] + q + query)
-    if case["https"]:
-        yield dict(case, https=False)
     if not case["v11"] and any(n.lower() == "host" for n, _ in hs):
         yield dict(case, v11=True)
     if case["method"] not in ("GET", "HEAD"):
         yield dict(case, method="GET")
 
 
+def shrink(case):
+    steps = case["steps"]
+    if len(steps) > 1:
+        for i in range(len(steps)):
+            yield {"steps": steps[:i] + steps[i + 1:]}
+    for i, st in enumerate(steps):
+        for st2 in shrink_step(st):
+            yield {"steps": steps[:i] + [st2] + steps[i + 1:]}
+        if len(steps) == 1 and st["https"]:
+            yield {"steps": [dict(st, https=False)]}
+
+
 TRUSTED_BASE = [
+    "translators/c47_src.py (ast-based reader of WSGIContainer.environ and _path_bytes; fails closed on any other statement/expression shape and on any use of self other than reading self.executor)",
     "the request reader (C01's subject) is outside this model: a case is the start line and header lines the reader splits out; the harness renders them as 'name:value' lines and one request per connection",
     "the harness splits the bytes written by the server at the first blank line, at CRLF and at the first ': ' of each line (the model proves no line contains CR or LF)",
     "urllib.parse.unquote_to_bytes and the UTF-8 codec are modelled in coq/Lib/C21_Pct.v / C21_Utf8.v",
@@ -456,17 +584,20 @@ ASSUMPTIONS = [
     "the default (same-thread) executor; wsgi.multithread is then the constant False",
     "the application passes str status/header values and bytes body chunks (other types raise TypeErrors that are not modelled)",
     "the status code field contains no whitespace, sign, underscore or non-ASCII character unless it is all digits (int()'s extended syntax is outside the model: IntUnmodelled)",
+    "with xheaders=True the X-Forwarded-For / X-Real-Ip headers are not generated (remote_ip validation needs getaddrinfo); only the protocol part of _apply_xheaders is modelled",
     "request headers Expect / Transfer-Encoding, duplicate Content-Length and form/multipart content types are not generated (they trigger connection-layer behaviour outside WSGIContainer)",
     "response pass-through is stated for applications that respect PEP 3333 / HTTP (Run.app_ok): 3-digit status + space + printable ASCII reason, token header names, valid field values, no hop-by-hop headers, a correct Content-Length if given, no body with 1xx/204/304",
 ]
 RULE = ("Host names x port suffixes exhaustively, all strings over a small Host alphabet up to length 3 (quick: a:1[]) / 4 (thorough: a:1[]0), "
         "thorough also all port strings over 0189: up to length 4 and all paths over %4a/g up to length 4, "
         "paths with every kind of escape x query strings, statuses x bodies x default-header presence, header-name pairs (CGI collisions), "
-        "plus random structured requests/applications (80% well-formed) ; distinct by full input; non-trivial = the application was called")
+        "plus random structured requests/applications (80% well-formed); sequences of 2-6 (thorough: up to 68) requests on ONE container: "
+        "same Host without port / with empty port / IPv6 literal / explicit port under every http/https order of length 2 and 3, interleaved hosts, "
+        "rejected and failing requests in the middle, random mixtures; distinct by full input; non-trivial = the application was called")
 LEVEL_TEXT = ("Machine-checked (Coq) theorems over an executable model of WSGIContainer.environ / handle_request and the parts of HTTPHeaders, "
               "HTTPServerRequest and HTTP1Connection.write_headers they rely on: building the environ never raises for any accepted request; PATH_INFO is the percent-decoding of the raw path bytes; "
               "SERVER_NAME/SERVER_PORT equal the left-to-right reading of name[:port] Host values; every CGI variable is determined by the request; "
               "for every well-formed application output the response is written and status, headers (per-name value sequences) and body (none for HEAD) reach the transport unchanged apart from the three defaults; the model satisfies the checker on every input. "
               "The model is compared with the real server + container on every generated request/application pair.")
 LEVEL_NOTE = ("Trusted: Coq kernel/vm_compute; the request reader upstream of HTTPServerRequest; the harness's response splitter; the Pct/Utf8 library models.")
-TECHNIQUE = "Coq proofs (induction over header lists / header map invariants) + differential correspondence via vm_compute through a real HTTPServer on a fake stream"
+TECHNIQUE = "Coq proofs (induction over header lists / header map invariants) + translator from wsgi.py (environ) with equivalence proofs + differential correspondence via vm_compute through a real HTTPServer on a fake stream"
